@@ -229,3 +229,55 @@ func ruleC03bCoversReturn(c *Ctx, s sortSite, r *ssa.Return) bool {
 	}
 	return false
 }
+
+// fewerThanTwoAt: the facts at return r say that the sorted collection (or the slice field of the collection object
+// that holds the candidates) has fewer than two elements.
+func fewerThanTwoAt(p *Program, s sortSite, r *ssa.Return) bool {
+	vals, _ := p.sameCollection(s.Coll)
+	isColl := func(v ssa.Value) bool {
+		v = strip(v)
+		if vals[v] {
+			return true
+		}
+		if b, _, ok := fieldLoad(v); ok {
+			b = strip(b)
+			if vals[b] || p.sameVar(b, s.Coll) {
+				return true
+			}
+		}
+		return false
+	}
+	for f := range factsAt(s.Fn)[r.Block()] {
+		bo, ok := f.Cond.(*ssa.BinOp)
+		if !ok {
+			continue
+		}
+		x, y, op := bo.X, bo.Y, bo.Op
+		if _, isC := constInt(x); isC {
+			x, y = y, x
+			op = mirrorOp[op]
+		}
+		call, ok := x.(*ssa.Call)
+		if !ok || !isBuiltinCall(call, "len") || !isColl(call.Call.Args[0]) {
+			continue
+		}
+		n, ok := constInt(y)
+		if !ok {
+			continue
+		}
+		if !f.Pol {
+			op = complementOp[op]
+		}
+		switch op {
+		case token.LSS:
+			if n <= 2 {
+				return true
+			}
+		case token.LEQ, token.EQL:
+			if n <= 1 {
+				return true
+			}
+		}
+	}
+	return false
+}
